@@ -81,11 +81,12 @@ EnvOK(e) ==
   /\ e.radius >= Q \div 10 /\ e.radius <= 10 * Q
   /\ \A i \in 1..e.n : Abs(e.cx[i]) <= COORD /\ Abs(e.cy[i]) <= COORD /\ e.A[i] >= 10000 /\ e.A[i] <= 20 * Q
   /\ SatSum(e.A, 1, e.n, 0, 191 * Q) <= 190 * Q /\ SumAll(e.A, 1, e.n) \div e.n <= 5 * Q
+  \* (range of every logged coordinate first: clipped out-of-range values must not reach the differences below)
+  /\ \A i \in 1..(e.G + 1) : Abs(e.xe[i]) <= COORD /\ Abs(e.ye[i]) <= COORD
   \* all centre-to-centroid distances are < 30, so that squared distances fit 32 bits
   /\ e.xe[e.G + 1] - e.xe[1] <= 28 * Q /\ e.ye[e.G + 1] - e.ye[1] <= 28 * Q
   /\ \A i \in 1..e.n : /\ e.cx[i] >= e.xe[1] - Q /\ e.cx[i] <= e.xe[e.G + 1] + Q
                        /\ e.cy[i] >= e.ye[1] - Q /\ e.cy[i] <= e.ye[e.G + 1] + Q
-  /\ \A i \in 1..(e.G + 1) : Abs(e.xe[i]) <= COORD /\ Abs(e.ye[i]) <= COORD
   /\ \A i \in 1..e.G : e.xe[i + 1] - e.xe[i] >= 100 /\ e.ye[i + 1] - e.ye[i] >= 100
   /\ \A j \in 1..e.m : \A k \in DOMAIN e.oc[j] : e.oc[j][k] \in 0..e.n
 
